@@ -187,7 +187,7 @@ impl ConverterBuilder {
         let best = enum_map! {
             q =>  {
                 if let Some(best_units) = &self.best_units[q] {
-                    BestConversionsStore::new(best_units, &self.unit_index, &self.all_units)?
+                    BestConversionsStore::new(best_units, q, &self.unit_index, &self.all_units)?
                 } else {
                     return Err(ConverterBuilderError::EmptyBest { reason: "no best units given", quantity: q })
                 }
@@ -229,16 +229,17 @@ impl ConverterBuilder {
 impl BestConversionsStore {
     fn new(
         best_units: &BestUnits,
+        quantity: PhysicalQuantity,
         unit_index: &UnitIndex,
         all_units: &[UnitBuilder],
     ) -> Result<Self, ConverterBuilderError> {
         let v = match best_units {
             BestUnits::Unified(names) => {
-                Self::Unified(BestConversions::new(names, unit_index, all_units)?)
+                Self::Unified(BestConversions::new(names, quantity, unit_index, all_units)?)
             }
             BestUnits::BySystem { metric, imperial } => Self::BySystem {
-                metric: BestConversions::new(metric, unit_index, all_units)?,
-                imperial: BestConversions::new(imperial, unit_index, all_units)?,
+                metric: BestConversions::new(metric, quantity, unit_index, all_units)?,
+                imperial: BestConversions::new(imperial, quantity, unit_index, all_units)?,
             },
         };
         Ok(v)
@@ -248,13 +249,25 @@ impl BestConversionsStore {
 impl BestConversions {
     fn new(
         units: &[String],
+        quantity: PhysicalQuantity,
         unit_index: &UnitIndex,
         all_units: &[UnitBuilder],
     ) -> Result<Self, ConverterBuilderError> {
         let mut units = units
             .iter()
-            .map(|n| unit_index.get_unit_id(n))
-            .collect::<Result<Vec<_>, _>>()?;
+            .map(|n| {
+                let id = unit_index.get_unit_id(n)?;
+                let unit_quantity = all_units[id].physical_quantity;
+                if unit_quantity != quantity {
+                    return Err(ConverterBuilderError::BestUnitQuantity {
+                        unit: n.clone(),
+                        quantity,
+                        unit_quantity,
+                    });
+                }
+                Ok(id)
+            })
+            .collect::<Result<Vec<_>, ConverterBuilderError>>()?;
 
         units.sort_by(|a, b| {
             let a = &all_units[*a];
@@ -566,4 +579,11 @@ pub enum ConverterBuilderError {
 
     #[error("No SI prefixes found when expandind SI on a unit")]
     EmptySIPrefixes,
+
+    #[error("Best unit '{unit}' for '{quantity}' is a unit of '{unit_quantity}'")]
+    BestUnitQuantity {
+        unit: String,
+        quantity: PhysicalQuantity,
+        unit_quantity: PhysicalQuantity,
+    },
 }
